@@ -87,7 +87,8 @@ def coq_request(r, **kw) -> str:
 
 
 def coq_response(r, **kw) -> str:
-    return (f"(mkResponse {txt(r.id)} {z(r.serial)} {txt(r.domain)} {coq_sigpolicy(r.ksk_policy)} {coq_sigpolicy(r.zsk_policy)} "
+    ko = kw.get("keep_order", False)
+    return (f"(mkResponse {txt(r.id)} {z(r.serial)} {txt(r.domain)} {coq_sigpolicy(r.ksk_policy, ko)} {coq_sigpolicy(r.zsk_policy, ko)} "
             f"[" + ";\n  ".join(coq_bundle(b, **kw) for b in r.bundles) + "])")
 
 
